@@ -4,13 +4,13 @@
    spec_table / si_of / config_key are the hand-pinned table of the 25 documented paths (Spec/SweepPaths.v); ideal_set is the
    hand-written "write this slot, touch nothing else" (Model/Sweep.v).  snell / csign are the two external kernels (Snell search,
    poling sign) — every theorem holds for all of them.
-   Two defects found by this check were repaired in /repo (frequency_thz factor 2 pi: c033754; poling period on an unpoled base:
-   7f110fb); the theorems are stated at full strength for the repaired code. *)
+   Three defects found by this check were repaired in /repo (frequency_thz factor 2 pi: c033754; poling period on an unpoled base:
+   7f110fb; sign of a negative external angle: 6fcae16); the theorems are stated at full strength for the repaired code. *)
 From Coq Require Import Reals List String.
 From SpdVerif Require Import Base.Rx Base.PolingBase Gen.Poling Gen.Sweep Spec.SweepPaths Model.Sweep
   Proofs.C18_table Proofs.C18_frame Proofs.C18_sweep Proofs.C18_all Proofs.C18_external Proofs.C18_normspectrum.
 From SpdVerif Require Base.CfgNumOps Model.NumInst Model.ConfigTypes Model.Config Model.NormSpectrum.
-From SpdVerif Require Model.Optics Model.Fresnel Gen.Beam Proofs.C13_snell.
+From SpdVerif Require Model.Optics Model.Fresnel Gen.Beam.
 Import ListNotations.
 Local Open Scope R_scope.
 
@@ -45,26 +45,27 @@ Theorem C18_value : forall snell csign p sl u, In (p, (sl, u)) spec_table -> sl 
     assoc (config_key sl) (config_num (f s v)) = Some (expected_value snell sl u v s).
 Proof. exact value_all. Qed.
 
-(* external angle, against the Snell contract of C13 (C13_snell_forward / C13_snell_roundtrip_partial): the generated setter with
-   its Snell oracle instantiated by C13's generated calc_internal_theta_from_external (nm = the Nelder-Mead kernel, index = the
-   crystal's index along a direction for this beam's wavelength and polarization).  IF the optimiser returns th in [0, pi/2] with
-   residual <= r for e = |v| deg (e <= M < pi/2), THEN the stored internal angle is th, it satisfies Snell's law within r,
-   |sin e - n(th) sin th| <= r, the view shows th in degrees (4 decimals), the azimuth is untouched, and the external angle read back
-   through Snell is within r / cos M of e.  PARTIAL in the same sense as C13: convergence of the simplex is checked per input. *)
+(* external angle, BOTH signs, against the Snell search as generated for C13 (Gen/Beam.v): the generated setter with its Snell oracle
+   instantiated by the generated calc_internal_theta_from_external (nm = the Nelder-Mead kernel, index = the crystal's index along a
+   direction for this beam's wavelength and polarization).  With e = v deg: IF the optimiser returns a magnitude th in [0, pi/2] with
+   residual <= r, THEN the stored internal angle is sign(e) * th (so it has the sign of the request), it satisfies Snell's law within
+   r on that side of the azimuth plane, | |sin e| - n(sign(e) th) sin th | <= r, the view shows it in degrees (4 decimals), and the
+   azimuth is untouched.  PARTIAL: convergence of the simplex is checked per input (the read-back bound r / cos M is C13's
+   C13_snell_roundtrip_partial; the harness reads the external angle back for every sampled value, both signs). *)
 Theorem C18_external_angle_partial : forall nm index pol csign p b, In (p, (SBeamThetaExternal b, UDeg)) spec_table ->
-  exists f, get_setter (snell_of nm index pol) csign p = Some f /\ forall s v r M,
+  exists f, get_setter (snell_of nm index pol) csign p = Some f /\ forall s v r,
     let bm := get_beam b s in
-    let e := Rabs (v * (PI / 180)) in
+    let e := v * (PI / 180) in
     let n_along := index (s_crystal_setup s) bm in
-    let th := Proofs.C13_snell.theta_star nm n_along (to13 pol bm) e in
-    0 <= b_phi bm < 2 * PI -> - PI < b_theta bm <= PI ->
-    e <= M -> M < PI / 2 -> 0 <= th <= PI / 2 ->
+    let th := theta_mag nm n_along (to13 pol bm) e in
+    0 <= b_phi bm < 2 * PI ->
+    0 <= th <= PI / 2 ->
     Gen.Beam.snell_cost_gen n_along (to13 pol bm) e th <= r ->
     let bm' := get_beam b (f s v) in
-    b_theta bm' = th /\ b_phi bm' = b_phi bm /\
-    Rabs (sin e - n_along (Model.Optics.normalize (Model.Fresnel.polar_dir (b_phi bm') (b_theta bm'))) * sin (b_theta bm')) <= r /\
-    assoc (config_key (SBeamThetaExternal b)) (config_num (f s v)) = Some (round4 (b_theta bm' / (PI / 180))) /\
-    (sin e + r <= sin M -> Rabs (Gen.Beam.theta_external_gen n_along (to13 pol bm') - e) <= r / cos M).
+    b_theta bm' = signum e * th /\ (0 <= v -> 0 <= b_theta bm') /\ (v < 0 -> b_theta bm' <= 0) /\
+    b_phi bm' = b_phi bm /\
+    Rabs (Rabs (sin e) - n_along (Model.Optics.normalize (Model.Fresnel.polar_dir (b_phi bm') (b_theta bm'))) * sin (Rabs (b_theta bm'))) <= r /\
+    assoc (config_key (SBeamThetaExternal b)) (config_num (f s v)) = Some (round4 (b_theta bm' / (PI / 180))).
 Proof. exact external_contract. Qed.
 
 (* THz = 1e12 cycles per second: the stored angular frequency is 2 pi v 1e12 rad/s *)
@@ -127,6 +128,20 @@ Proof.
          (fun i j d Hi Hj => values_nth base s1 s2 jsa2 nrm x0 x1 nx y0 y1 ny i j d Hi Hj)).
 Qed.
 
+(* the same for the setters the code actually installs: for any two documented paths try_new succeeds, setup j * nx + i is "slot 1 := value
+   i of the first axis in path 1's unit, THEN slot 2 := value j of the second axis", and the swept spectrum value is that setup's *)
+Theorem C18_sweep_paths : forall snell csign p1 sl1 u1 p2 sl2 u2,
+  In (p1, (sl1, u1)) spec_table -> In (p2, (sl2, u2)) spec_table ->
+  forall base, exists s1 s2,
+    spdc_iter_try_new snell csign base p1 p2 = Some (base, (s1, s2)) /\
+    forall jsa2 nrm x0 x1 nx y0 y1 ny i j d, (i < nx)%nat -> (j < ny)%nat ->
+      nth (j * nx + i) (spdc_iter_into_iter base s1 s2 x0 x1 nx y0 y1 ny) base =
+        ideal_set snell csign sl2 (si_of u2 (axis_value y0 y1 ny j)) (ideal_set snell csign sl1 (si_of u1 (axis_value x0 x1 nx i)) base) /\
+      nth (j * nx + i) (spdc_iter_jsi_values jsa2 nrm base s1 s2 x0 x1 nx y0 y1 ny) d =
+        centre_value jsa2 nrm (ideal_set snell csign sl2 (si_of u2 (axis_value y0 y1 ny j))
+                                 (ideal_set snell csign sl1 (si_of u1 (axis_value x0 x1 nx i)) base)).
+Proof. exact sweep_paths. Qed.
+
 (* normalised sweep (generated SPDCIter::jsi_values_normalized; opt_of = SPDC::try_as_optimum as an oracle): it panics (None) iff the
    base cannot be optimised; otherwise every value is the raw swept value divided by the reference at the optimised BASE's centre *)
 Theorem C18_values_normalized : forall base setter1 setter2 jsa2 nrm opt_of x0 x1 nx y0 y1 ny,
@@ -176,8 +191,8 @@ Example C18_nonvacuous_guards : forall snell s,
 Proof. intros. cbn. repeat split; Lra.lra. Qed.
 
 Example C18_nonvacuous_external : In ("signal.theta_external_deg"%string, (SBeamThetaExternal BSignal, UDeg)) spec_table /\
-  Rabs (2 * (PI / 180)) <= 10 * (PI / 180) /\ 10 * (PI / 180) < PI / 2.
-Proof. pose proof PI_RGT_0. split; [cbn; tauto|]. split; [rewrite Rabs_right|]; Lra.lra. Qed.
+  0 <= 1 * (PI / 180) <= PI / 2.
+Proof. pose proof PI_RGT_0. split; [cbn; tauto|]. Lra.lra. Qed.
 
 Example C18_nonvacuous_beam : beam_ok (mk_beam (mk_beam_waist 1e-4 1e-4) 1.2e15 0%nat 0 0).
 Proof. unfold beam_ok. cbn. pose proof PI_RGT_0. Lra.lra. Qed.
@@ -194,5 +209,6 @@ Print Assumptions C18_try_new.
 Print Assumptions C18_order.
 Print Assumptions C18_grid.
 Print Assumptions C18_values.
+Print Assumptions C18_sweep_paths.
 Print Assumptions C18_values_normalized.
 Print Assumptions C18_values_are_C20_model.
